@@ -62,6 +62,7 @@ ASSUMPTIONS = ['parser-built model without verbatim code; solve_t_before / solve
                'every variable array has the span\'s length (container invariant, C09)',
                'the instance-level lags / leads are at least the deepest lag / furthest lead of the equations (C03)',
                't lies inside the span (-n <= t < n)',
+               't is an int, not a bool (solve_t(True): bool is an int to Python but NumPy reads self._Y[True] as a mask, so every period is assigned and stamped — not a period position, outside the model where t : Z)',
                'a user who assigns model.lags / model.leads BELOW what the equations need has redefined the model\'s lags: outside the premise prog_lags <= lags d of the positive theorems (witness C04_lowered_instance_lags_refuted); such cases are judged by K and the frame clauses only',
                'entry-point theorems (solve / iter_periods, model Solver/SolveAll.v): every label of the span resolves to its own position (locate_ok; true of spans without repeated labels)',
                'Fortran engine (model Fortran/FSolve.v): the lags / leads compiled into the module are the instance-level ones; the values matrix is rectangular with one column per period']
@@ -78,11 +79,8 @@ SO_DIR = os.path.join(SO_ROOT, str(os.getppid() if IN_WORKER else os.getpid()))
 
 def _cleanup():
     if not IN_WORKER:
-        shutil.rmtree(SO_DIR, ignore_errors=True)
+        shutil.rmtree(SO_DIR, ignore_errors=True)      # only this run's own directory (other pids may live in another namespace)
         try:
-            for d in os.listdir(SO_ROOT):
-                if d.isdigit() and not os.path.exists('/proc/%s' % d):
-                    shutil.rmtree(os.path.join(SO_ROOT, d), ignore_errors=True)
             os.rmdir(SO_ROOT)
         except OSError:
             pass
@@ -611,8 +609,14 @@ def impl_fortran(case):
         return {'skip': 'build:' + type(e).__name__}
     try:
         eng = fc.Cache(SO_DIR).engine(text)
-    except fc.CompileError:
-        return {'skip': 'fortran-compile: generated Fortran rejected by gfortran (C07\'s business)'}
+    except fc.CompileError as e:
+        # a diagnosed rejection of the generated Fortran is C07's business; anything else gfortran may die of (killed, no space,
+        # no compiler) says nothing about fsic either: a counted skip, never a verdict
+        diagnosed = 'Error:' in str(e)
+        return {'skip': ('fortran-compile: generated Fortran rejected by gfortran (C07\'s business)' if diagnosed
+                         else 'fortran-unavailable: gfortran failed without a diagnosis (%s)' % str(e)[:60].replace('\n', ' '))}
+    except Exception as e:       # noqa: BLE001  e.g. OSError from ctypes.CDLL when the temporary directory is mounted noexec
+        return {'skip': 'fortran-unavailable: the compiled engine cannot be built or loaded here (%s: %s)' % (type(e).__name__, str(e)[:60])}
     names = list(Model.NAMES)
 
     class F(FT.FortranEngine, Model):
@@ -887,6 +891,19 @@ def _c_event(e):
     return '(%s %s %d%%nat)' % ('EvPass' if e[0] == 'pass' else 'EvAfter', lib.cZ(e[1]), e[2])
 
 
+def _respell(events, t, n):
+    """hook events carry the period as the code passed it on; whether solve_t hands its hooks the caller's spelling of t or
+    the normalised position is not something the property constrains: events of the period t denotes are compared under the
+    caller's spelling"""
+    out = []
+    for e in events:
+        e = list(e)
+        if isinstance(e[1], int) and -n <= e[1] < n and (e[1] % n) == (t % n):
+            e[1] = t
+        out.append(e)
+    return out
+
+
 def _c_state(vals, status, iters, events):
     return '(mkState %s %s %s %s)' % (em.c_vals(vals), lib.clist(sc.ST[s] for s in status), lib.clist(lib.cZ(i) for i in iters),
                                       lib.clist(map(_c_event, events)))
@@ -973,7 +990,7 @@ def k_items(case, obs):
         items.append('(KS (mkS %s %s %s %s %s %s %s %s))' % (
             em.c_table(table), prog, _c_desc(obs), sc.c_opts(case['opts']), lib.clist([lib.cZ(case['t'])]),
             _c_state(obs['before'], case['status0'], case['iters0'], []),
-            _c_state(obs['after'], obs['status'], obs['iters'], obs['events']), _c_out(obs['out'])))
+            _c_state(obs['after'], obs['status'], obs['iters'], _respell(obs['events'], case['t'], n)), _c_out(obs['out'])))
     low = obs['lags'] < obs['class_lags'] or obs['leads'] < obs['class_leads']      # user-lowered instance attribute: no hypothesis check
     if case['entry'] == 'solve_period' and obs['table_complete']:
         # the label entry point on the span type of the case: SolveAll.solve_period_M with SolveAllSpan.locate_span
